@@ -538,7 +538,7 @@ SEEDS = [
 
 
 def b_programs(r, quick):
-    n = int(os.environ.get("C08_DEV_N", "0")) or (230 if quick else 2000)
+    n = int(os.environ.get("C08_DEV_N", "0")) or (180 if quick else 2000)
     progs = []
     for i, s in enumerate(SEEDS):
         has_block = any(G.count_kind(b, "block") for b in s)
